@@ -290,55 +290,86 @@ def _driver_groups(base):
     return out
 
 
+def _search_arms(fn):
+    """pattern attribute -> statements run when ``search(self.PATTERN, line)`` matched (if / elif chain, either polarity)"""
+    out = {}
+    for n in ast.walk(fn):
+        if isinstance(n, ast.If):
+            t = n.test
+            neg = False
+            if isinstance(t, ast.UnaryOp) and isinstance(t.op, ast.Not):
+                t, neg = t.operand, True
+            if isinstance(t, ast.NamedExpr) and isinstance(t.value, ast.Call) and getattr(t.value.func, 'id', '') == 'search' \
+                    and t.value.args and isinstance(t.value.args[0], ast.Attribute):
+                out[t.value.args[0].attr] = (n, n.orelse if neg else n.body, t.target.id)
+    return out
+
+
 def _bookkeeping(chk, ctx, base) -> None:
     fi = base.methods.get('_parse_actions')
     if fi is None:
         raise AnalysisError('REParser._parse_actions vanished')
-    arms = {}
-    for n in ast.walk(fi.node):
-        if isinstance(n, ast.If) and isinstance(n.test, ast.NamedExpr):
-            a0 = n.test.value.args[0]
-            if isinstance(a0, ast.Attribute):
-                arms[a0.attr] = n
-    def has(arm, pred):
-        return arm in arms and any(pred(s) for st in arms[arm].body for s in ast.walk(st))
-    fp = 'format_player(m)'
-    facts = {
-        'a posted blind is the poster\'s bet': has('BLIND_OR_STRADDLE_POSTING', lambda s: isinstance(s, ast.Assign) and T.norm(s.targets[0]) == T.spec(f'bets[{fp}]')
-                                                   and T.norm(s.value) == T.spec("parse_value(m['blind_or_straddle'])")),
-        'a new street clears the bets': has('BOARD_DEALING', lambda s: isinstance(s, ast.Call) and ast.unparse(s.func) == 'bets.clear'),
-        'a caller has matched the maximum': has('CHECKING_OR_CALLING', lambda s: isinstance(s, ast.Assign) and T.norm(s.targets[0]) == T.spec('bets[formatted_player]')
-                                               and T.norm(s.value) == T.spec('max(bets.values(), default=0)')),
-        'a raiser\'s bet becomes the converted raise-to': has('COMPLETION_BETTING_OR_RAISING', lambda s: isinstance(s, ast.Assign) and T.norm(s.targets[0]) == T.spec('bets[formatted_player]')
-                                                              and T.norm(s.value) == T.spec("self._get_completion_betting_or_raising_to_amount(bets, formatted_player, parse_value(m['amount']), line)")),
-        'a "raise" that does not exceed the maximum is a call': has('COMPLETION_BETTING_OR_RAISING', lambda s: isinstance(s, ast.If) and T.cond(s.test) == T.spec('bets[formatted_player] <= max_bet', boolean=True)),
-        'the maximum is read before the raiser\'s bet changes': _max_before(arms.get('COMPLETION_BETTING_OR_RAISING')),
-    }
+    m = ctx.m
+    arms = _search_arms(fi.node)
+    tables = [n.targets[0].id for n in m.assigns(fi.node, 'defaultdict(int)') if isinstance(n.targets[0], ast.Name)]
+    if len(tables) != 1:
+        raise AnalysisError('REParser._parse_actions: the per-street bet table (defaultdict(int)) is not recognisable')
+    B = tables[0]
+    lines = [n.target.id for n in m.fors(fi.node, 's.splitlines()') if isinstance(n.target, ast.Name)]
+    line_var = lines[0] if lines else 'line'
+
+    def stmts(arm):
+        return [x for st in arms[arm][1] for x in ast.walk(st)] if arm in arms else []
+
+    def sets_bet(arm, value_spec):
+        mv = arms[arm][2] if arm in arms else 'm'
+        for x in stmts(arm):
+            if isinstance(x, ast.Assign) and isinstance(x.targets[0], ast.Subscript) and isinstance(x.targets[0].value, ast.Name) and x.targets[0].value.id == B:
+                if m.eq(T.norm(x.value), value_spec.replace('<B>', B).replace('<M>', mv)):
+                    return x
+        return None
+    facts = {}
+    facts["a posted blind is the poster's bet"] = sets_bet('BLIND_OR_STRADDLE_POSTING', "parse_value(<M>['blind_or_straddle'])") is not None
+    facts['a new street clears the bets'] = any(isinstance(x, ast.Call) and ast.unparse(x.func) == f'{B}.clear' for x in stmts('BOARD_DEALING'))
+    facts['a caller has matched the maximum'] = sets_bet('CHECKING_OR_CALLING', 'max(<B>.values(), default=0)') is not None
+    raise_set = None
+    for x in stmts('COMPLETION_BETTING_OR_RAISING'):
+        if isinstance(x, ast.Assign) and isinstance(x.targets[0], ast.Subscript) and isinstance(x.targets[0].value, ast.Name) and x.targets[0].value.id == B \
+                and isinstance(x.value, ast.Call) and ast.unparse(x.value.func) == 'self._get_completion_betting_or_raising_to_amount':
+            a = x.value.args
+            mv = arms['COMPLETION_BETTING_OR_RAISING'][2]
+            if len(a) == 4 and T.norm(a[0]) == ('name', B) and T.norm(a[1]) == T.norm(x.targets[0].slice) \
+                    and T.norm(a[2]) == T.spec(f"parse_value({mv}['amount'])") and T.norm(a[3]) == ('name', line_var):
+                raise_set = x
+    facts["a raiser's bet becomes the converted raise-to"] = raise_set is not None
+    down = before = False
+    if raise_set is not None:
+        body = arms['COMPLETION_BETTING_OR_RAISING'][1]
+        key_t = T.norm(raise_set.targets[0].slice)
+        maxes = [st for st in body if isinstance(st, ast.Assign) and isinstance(st.targets[0], ast.Name)
+                 and T.norm(st.value) == T.spec(f'max({B}.values(), default=0)')]
+        if len(maxes) == 1:
+            M = maxes[0].targets[0].id
+            before = body.index(maxes[0]) < next((k for k, st in enumerate(body) if any(x is raise_set for x in ast.walk(st))), -1)
+            down = any(isinstance(x, ast.If) and T.cond(x.test) in (T.cmp('LtE', ('sub', ('name', B), key_t), ('name', M)),
+                                                                 T.cmp('Gt', ('sub', ('name', B), key_t), ('name', M)))
+                       for st in body for x in ast.walk(st))
+    facts['a "raise" that does not exceed the maximum is a call'] = down
+    facts["the maximum is read before the raiser's bet changes"] = before
     missing = [k for k, v in facts.items() if not v]
     chk.ob('C20.bookkeeping', 'REParser._parse_actions', not missing, fi.loc,
            'the per-street bet table the site conventions read is kept up to date by every event that changes a bet', got=f'missing: {missing}' if missing else 'ok')
     emitted = {}
-    for k, n in arms.items():
-        for s in [x for st in n.body for x in ast.walk(st)]:
-            if isinstance(s, ast.Assign) and ast.unparse(s.targets[0]) == 'action' and isinstance(s.value, ast.JoinedStr):
-                toks = ' '.join(v.value for v in s.value.values if isinstance(v, ast.Constant)).split()
-                emitted.setdefault(k, set()).add(tuple(toks))
+    for k, (node, body, mv) in arms.items():
+        for x in [y for st in body for y in ast.walk(st)]:
+            if isinstance(x, ast.Assign) and isinstance(x.value, ast.JoinedStr):
+                toks = ' '.join(v.value for v in x.value.values if isinstance(v, ast.Constant)).split()
+                if toks:
+                    emitted.setdefault(k, set()).add(tuple(toks))
     want = {'HOLE_DEALING': {('d', 'dh')}, 'BOARD_DEALING': {('d', 'db')}, 'FOLDING': {('f',)}, 'CHECKING_OR_CALLING': {('cc',)},
             'COMPLETION_BETTING_OR_RAISING': {('cc',), ('cbr',)}, 'HOLE_CARDS_SHOWING': {('sm',)}}
     chk.ob('C20.bookkeeping', 'REParser._parse_actions:verbs', emitted == want, fi.loc,
            'each log event is rendered with the PHH verb of the same meaning', got={k: sorted(v) for k, v in emitted.items()})
-
-
-def _max_before(arm) -> bool:
-    if arm is None:
-        return False
-    srcs = [stmt_text(s, 400) for s in arm.body]
-    try:
-        i = next(k for k, s in enumerate(srcs) if s.startswith('max_bet = max(bets.values(), default=0)'))
-        j = next(k for k, s in enumerate(srcs) if s.startswith('bets[formatted_player] = '))
-    except StopIteration:
-        return False
-    return i < j
 
 
 def _errors(chk, ctx) -> None:
@@ -360,24 +391,48 @@ def _errors(chk, ctx) -> None:
         chk.ob('C20.errors', f'{cname}.__call__:yield', yields_in_else, fi.loc, 'a history is yielded only when parsing it raised nothing')
     # the parsed history is replayed before it is returned (an unreplayable hand raises)
     fi = prog.cls('REParser').methods['_parse']
-    ok = any(isinstance(n, ast.Assign) and T.norm(n.value) == T.spec('tuple(hh)[-1]') for n in ast.walk(fi.node))
+    ok = bool(ctx.m.assigns(fi.node, 'tuple(hh)[-1]'))
     chk.ob('C20.errors', 'REParser._parse:replayed', ok, fi.loc, 'the reconstructed hand is replayed to the end before it is handed out')
 
 
 def _order(chk, ctx, base) -> None:
     fi = base.methods['_parse']
-    src = [stmt_text(s, 300) for s in fi.body]
-    neg = any(isinstance(n, ast.For) and T.norm(n.iter) == T.spec('players[2:]') and any(
-        isinstance(s, ast.Assign) and T.norm(s.value) == T.spec('-parsed_blinds_or_straddles[player]') for s in n.body) for n in fi.body)
-    rev = any(isinstance(n, ast.If) and T.cond(n.test) == T.spec('player_count == 2', boolean=True)
-              and sorted(stmt_text(s) for s in n.body) == ['antes.reverse()', 'blinds_or_straddles.reverse()'] for n in fi.body)
+    m = ctx.m
+    # the lists handed to the history: HandHistory(antes=A, blinds_or_straddles=Bl, min_bet=..., starting_stacks=...)
+    kw = {}
+    for c in ast.walk(fi.node):
+        if isinstance(c, ast.Call) and getattr(c.func, 'id', '') == 'HandHistory':
+            for k in c.keywords:
+                if k.arg in ('antes', 'blinds_or_straddles', 'min_bet'):
+                    kw[k.arg] = k.value
+            break
+    A = kw['antes'].id if isinstance(kw.get('antes'), ast.Name) else None
+    Bl = kw['blinds_or_straddles'].id if isinstance(kw.get('blinds_or_straddles'), ast.Name) else None
+    neg = False
+    for n in fi.body:
+        if isinstance(n, ast.For) and isinstance(n.target, ast.Name) and m.eq(T.norm(n.iter), 'players[2:]'):
+            p = n.target.id
+            neg = any(isinstance(st, ast.Assign) and isinstance(st.targets[0], ast.Subscript) and T.norm(st.value) == T.neg(T.norm(st.targets[0]))
+                      and T.norm(st.targets[0].slice) == ('name', p) for st in n.body)
     chk.ob('C20.order', 'REParser._parse:late_posts', neg, fi.loc, 'blinds posted by players other than the two blind positions are late posts (negative amounts)')
+    rev = False
+    for n in fi.body:
+        if isinstance(n, ast.If):
+            b = m.bind(T.cond(n.test), 'count == 2', boolean=True)
+            body = n.body
+            if not b:
+                b = m.bind(T.cond(n.test), 'count != 2', boolean=True)
+                body = n.orelse
+            if b:
+                calls = sorted(ast.unparse(st.value.func) for st in body if isinstance(st, ast.Expr) and isinstance(st.value, ast.Call))
+                cnt = [x for x in fi.body if isinstance(x, ast.Assign) and isinstance(x.targets[0], ast.Name) and x.targets[0].id == b['count']]
+                rev = calls == sorted([f'{A}.reverse', f'{Bl}.reverse']) and len(cnt) == 1 and m.eq(T.norm(cnt[0].value), 'len(players)')
     chk.ob('C20.order', 'REParser._parse:heads_up', rev, fi.loc, 'heads-up the forced bets are listed reversed (the button posts the small blind), antes and blinds alike')
     op = base.methods['_get_ordered_players']
     rets = [T.norm(n.value) for n in walk_no_nested(op.node) if isinstance(n, ast.Return) and n.value is not None]
-    ok = bool(rets) and all(r == T.spec('list(rotated(players, -final_player_index - 1))') for r in rets)
+    ok = bool(rets) and all(m.eq(r, 'list(rotated(players, -k - 1))') for r in rets)
     chk.ob('C20.order', 'REParser._get_ordered_players', ok, op.loc, 'players are listed from the seat after the button, in seat order', got=[T.show(r) for r in rets[:1]])
-    srt = any(isinstance(n, ast.Assign) and T.norm(n.value) == T.spec('sorted(parsed_players, key=parsed_seats.__getitem__)') for n in fi.body)
+    srt = bool(m.assigns(fi.node, 'sorted(parsed_players, key=parsed_seats.__getitem__)'))
     chk.ob('C20.order', 'REParser._parse:seat_order', srt, fi.loc, 'players are first put in seat order')
-    mb = any(isinstance(n, ast.keyword) and n.arg == 'min_bet' and T.norm(n.value) == T.spec('max(blinds_or_straddles[:2])') for n in ast.walk(fi.node))
+    mb = Bl is not None and kw.get('min_bet') is not None and T.norm(kw['min_bet']) == T.spec(f'max({Bl}[:2])')
     chk.ob('C20.order', 'REParser._parse:min_bet', mb, fi.loc, 'the minimum bet is the big blind')
